@@ -21,7 +21,7 @@ CONSTANTS Pods,      \* pod ids (naturals >= 1)
           A4, A6,    \* address universes (naturals; 0 = no address)
           Enforce    \* subset of {"C01", "C06", "C07"}
 
-G(p, clause) == p \notin Enforce \/ clause
+G(p, clause) == IF p \in Enforce THEN clause ELSE TRUE   \* (IF, not \/: TLC would split a disjunction into two successors per guard)
 
 NoHold == [eni |-> 0, v4 |-> 0, v6 |-> 0]
 NoEni  == [on |-> FALSE, type |-> "", v4 |-> {}, v6 |-> {}, primary |-> 0]
